@@ -29,7 +29,11 @@ def u32F (j : Json) (k : String) : R UInt32 := do
   if n < 2 ^ 32 then pure (UInt32.ofNat n) else throw s!"{k}: not a uint32"
 
 def rawCfg (j : Json) : R RawCfg := do
-  pure { batch := ← intF j "batch", gasLimit := ← u32F j "gasLimit", overhead := ← u32F j "overhead" }
+  let i (k : String) : R Int := asInt (fieldD j k (.num 0))
+  pure { batch := ← intF j "batch", gasLimit := ← u32F j "gasLimit", overhead := ← u32F j "overhead",
+         reportBlockLag := ← i "lag", performLockoutWindow := ← i "lockout", targetInRounds := ← i "rounds",
+         samplingJobDuration := ← i "sampling", minConfirmations := ← i "minConfs",
+         mercuryLookup := ← asBool (fieldD j "mercury" (.bool false)) }
 
 def resOf (j : Json) : R Res := do
   pure { seq := ← natF j "seq", key := strBytes (← strF j "key"), eligible := ← boolF j "eligible",
@@ -57,10 +61,12 @@ structure Coord where
   performs : List Bytes   -- keys with a perform log
   seen     : List (Bytes × Bool)  -- recorded IsPending answers: key ↦ (pending ∨ error)
 
-def coordOf (j impl : Json) : R Coord := do
+def coordOf (j impl : Json) (minConfs : Int := 0) : R Coord := do
   -- `impl` = the object carrying the recorded `seen` answers (the case's impl, or one observation point)
   let strs (k : String) : R (List Bytes) := do pure ((← listOf asStr (fieldD j k .null)).map strBytes)
-  let perf ← listOf (fun p => do pure (strBytes (← strF p "key"))) (fieldD j "performs" .null)
+  -- a perform log is processed only with at least `minConfirmations` confirmations (≤ 0 counts as 0)
+  let perfAll ← listOf (fun p => do pure (strBytes (← strF p "key"), ← asInt (fieldD p "conf" (.num 0)))) (fieldD j "performs" .null)
+  let perf := (perfAll.filter fun (_, c) => decide (c ≥ max minConfs 0)).map (·.1)
   let seen ← listOf (fun s => do
     pure (strBytes (← strF s "key"), (← boolF s "pending") || (← boolF s "err"))) (fieldD impl "seen" .null)
   pure { real := (← strF j "kind") == "real", pendIds := ← strs "pendIds", errIds := ← strs "errIds",
@@ -112,7 +118,7 @@ def handleReport (input impl : Json) : R Reply := do
   let raw ← rawCfg (← field input "cfg")
   let cfg := defaults raw
   let script ← field input "script"
-  let coord ← coordOf (← field input "coord") impl
+  let coord ← coordOf (← field input "coord") impl raw.minConfirmations
   let decoded ← listF decOf? impl "decoded"
   let rawObs ← listOf (fun j => do hexBytes (← asStr j)) (fieldD input "obs" .null)
   if rawObs.length ≠ decoded.length then throw "decoded/obs length mismatch"
@@ -150,6 +156,7 @@ def handleReport (input impl : Json) : R Reply := do
     | none => []
   let tags :=
     [s!"status={got.status.name}"] ++
+    (if raw.reportBlockLag > 0 then ["cfg:reportBlockLag>0"] else []) ++
     (if coord.real then ["coord=real"] else ["coord=fake"]) ++
     (if decoded.any (·.isNone) then ["undecodable-observation"] else []) ++
     (if attr.any (fun o => match o with | some ob => !validObs ob | none => false) then ["invalid-observation"] else []) ++
@@ -195,6 +202,7 @@ structure HeadPts where
   midAt : Nat
   after : Bool
   acceptAfter : Bool  -- with `after`: the observed key is accepted, then Observation() is called again
+  stallMs : Int       -- virtual ms the observer stays parked inside the gated `Eligible` call (the model ignores it)
 
 def headOf (j : Json) : R HeadPts := do
   let block ← strF j "block"
@@ -205,7 +213,8 @@ def headOf (j : Json) : R HeadPts := do
   let midAt ← asNat (fieldD j "midAt" (.num 0))
   let aft ← asBool (fieldD j "after" (.bool false))
   let acc ← asBool (fieldD j "acceptAfter" (.bool false))
-  pure ⟨⟨strBytes block, active, srcErr, runErr, results⟩, midAt, aft, acc⟩
+  let stall ← asInt (fieldD j "stallMs" (.num 0))
+  pure ⟨⟨strBytes block, active, srcErr, runErr, results⟩, midAt, aft, acc, stall⟩
 
 /-- verdict on one Observation() call -/
 structure PointVerdict where
@@ -216,16 +225,19 @@ structure PointVerdict where
   fail : String
   tags : List String
 
-def handlePoint (hps : List HeadPts) (coordJ pt : Json) : R PointVerdict := do
+def handlePoint (hps : List HeadPts) (coordJ : Json) (minConfs : Int) (pt : Json) : R PointVerdict := do
   let heads := hps.map (·.head)
   let n ← natF pt "n"
   let phase ← strF pt "phase"
-  let coord0 ← coordOf coordJ pt
+  let coord0 ← coordOf coordJ pt minConfs
   -- keys the harness accepted (as a finalized report would) before this call: in flight from then on
   let dynKeys := (← listOf asStr (fieldD pt "accepted" .null)).map strBytes
   let dynIds := dynKeys.filterMap fun k => (splitKey k).map (·.2)
   let coord : Coord := { coord0 with pendIds := coord0.pendIds ++ dynIds, accepted := coord0.accepted ++ dynKeys }
   let out ← hexBytes (← strF pt "out")
+  -- the same slice read again at the end of the case (after every later call of every instance)
+  let outEnd ← hexBytes (← strF pt "outEnd")
+  let retained := specRetained out outEnd
   let outErr ← strF pt "outErr"
   let dec ← decOf? (← field pt "outDec")
   -- the stager the model says `Observe` reads at this point (for "mid": head n is in progress)
@@ -244,12 +256,12 @@ def handlePoint (hps : List HeadPts) (coordJ pt : Json) : R PointVerdict := do
   let decBad := match hit, dec with
     | some (ids, _), some (b, dids) => !(b == st.block && dids == ids)
     | _, _ => false
-  let agree := hit.isSome && outErr.isEmpty && !strictBad && !decBad
+  let agree := hit.isSome && outErr.isEmpty && !strictBad && !decBad && retained
   let wantOut := match hit with
     | some (_, b) => b
     | none => (modelOuts.head?.map (·.2)).getD []
   let sm := specObservation st pend wantOut (decodeObs wantOut)
-  let si := outErr != "panic" && specObservation st pend out dec
+  let si := outErr != "panic" && specObservation st pend out dec && retained
   let inProgress := hps[n]?
   let tags :=
     [s!"point={phase}"] ++
@@ -274,9 +286,11 @@ def handlePoint (hps : List HeadPts) (coordJ pt : Json) : R PointVerdict := do
            s!"point n={n} {phase}: " ++
            (if strictBad then "strict decoder ≠ encoding/json; " else "") ++
            (if decBad then "decoded observation ≠ staged block / chosen id; " else "") ++
+           (if !retained then s!"bytes later read {showBytes outEnd}; " else "") ++
            s!"impl out={showBytes out} err={outErr} model candidates={modelOuts.map fun (_, b) => showBytes b}",
          fail := if si then "" else
            if outErr == "panic" then s!"observation: panic in Observation (point n={n} {phase})"
+           else if !retained then s!"observation: bytes changed after Observation() had returned them (point n={n} {phase})"
            else explainObservation st pend out dec ++ s!" (point n={n} {phase})",
          tags := tags }
 
@@ -286,22 +300,27 @@ def handleObs (input impl : Json) : R Reply := do
   let coordJ ← field input "coord"
   let setup := (fieldD impl "setup" (.str "")).getStr?.toOption.getD ""
   let pts ← asList (fieldD impl "points" .null)
-  let vs ← pts.mapM (handlePoint hps coordJ)
+  let raw ← rawCfg (← field input "cfg")
+  let vs ← pts.mapM (handlePoint hps coordJ raw.minConfirmations)
   -- which Observation() calls the model expects: mid-head calls only when the gated `Eligible` call is reached
   let expected : List (Nat × String) :=
     (hps.zipIdx.flatMap fun (h, i) =>
       (if h.midAt ≥ 1 && headSampled h.head && decide (h.midAt ≤ h.head.results.length) then [(i, "mid")] else []) ++
       (if h.after then [(i + 1, "after")] else []) ++
-      (if h.after && h.acceptAfter then [(i + 1, "after2")] else [])) ++ [(heads.length, "final")]
+      (if h.after && h.acceptAfter then [(i + 1, "after2")] else [])) ++
+    [(heads.length, "final"), (0, "successor")]
   let got ← pts.mapM fun pt => do pure ((← natF pt "n"), (← strF pt "phase"))
   let pointsOk := decide (expected = got)
-  let coord ← coordOf coordJ (Json.mkObj [])
+  let coord ← coordOf coordJ (Json.mkObj []) raw.minConfirmations
   let agree := vs.all (·.agree) && pointsOk && setup.isEmpty
   let firstBad := vs.find? fun v => !v.specImpl
   let st := heads.foldl processHead {}
   let tags := (vs.flatMap (·.tags)).eraseDups ++
     (if coord.real then ["coord=real"] else ["coord=fake"]) ++
-    (if heads.any (fun h => !headSampled h) then ["unsampled-head"] else [])
+    (if heads.any (fun h => !headSampled h) then ["unsampled-head"] else []) ++
+    (if hps.any (fun h => h.midAt ≥ 1 && headSampled h.head && decide (h.midAt ≤ h.head.results.length) &&
+        decide (h.stallMs > (if raw.samplingJobDuration ≤ 0 then 3000 else raw.samplingJobDuration)))
+     then ["sampling-window-ran-out-mid-head"] else [])
   pure { agree := agree, specModel := vs.all (·.specModel), specImpl := firstBad.isNone,
          diff := if agree then "" else
            (if !setup.isEmpty then s!"harness: {setup}; " else "") ++
